@@ -168,6 +168,18 @@ impl Prop for C09 {
         out.push(Case { id: format!("account;f={};o={};v={}", fi, oi, vi), cell: "accounting-markup".into(), input: json!({"text": text, "markers": [marker], "twin": twin}) });
       }
     } }
+    // (x) texts that END right after a construct (no trailing character, a blank, a line break): calls, definitions, open patterns,
+    // open brackets, operators; and every kind spelling in every kind position
+    let enders = ["f()", "foo(x<u8>)", "x := f()", "x := foo(a, b)", "x := foo(a: 1)", "f(x<f64>) => <f64>", "r := x?", "r := x?\n  | 1 => 2", "[a | [b", "{x | [a", "x := 3\ny := x ? | [1, 2", "x := [1 2", "x := (1 +", "x :=", "x =", "x +=", "~x", "x := 1 ..", "x := 1..=", "#M(n) ->", "#M(n) -> :A(n)\n  :A(n) =>", "x := a.", "x := a[", "x := a{", "x<", "x<u8", "x<u8>", "<t> :=", "<t> := :a |", "x := |a<u8>|", "x := {a:", "x := \"abc", "-- c", "// c", "```", "```mech\nx := 1", "x := 1 --", "f(x) = y :=", "f(x<u8>) = y<u8> :=\n    y := x", "x := -", "x := !", "x := a'", "x := [a'", "(x, y) :=", "x := (1, ", "x := {1, ", "x := 1;", "x := 1; ", "[x | x <-", "[x | x <- y,", "x := a ?", "r := (a, b)?\n  | (1, y) =>"];
+    for (ei, e) in enders.iter().enumerate() { for (ti, tail) in ["", " ", "\n", " \n", "\n\n", "\t", "\r\n", "  "].iter().enumerate() {
+      out.push(Case { id: format!("ends-with;e={};t={}", ei, ti), cell: "text-ends-after-construct".into(), input: json!({"text": format!("{}{}", e, tail)}) });
+    } }
+    let kinds = ["*", "_", "u8", "[*]", "[_]", "{*}", "{_}", "(*,_)", "(u8,*)", "[*]:2,3", "*?", "_?", "{u8:*}", "{*:u8}", ":a", "[u8]:*,2", "[u8]:_"];
+    for (ki, k) in kinds.iter().enumerate() {
+      for (fi, src) in [format!("f(x<f64>) => <{}>\n  | 1 => 2\n  | * => 3.", k), format!("f(x<{}>) => <f64>\n  | 1 => 2\n  | * => 3.", k), format!("f(x<{}>) = y<{}> :=\n    y := x.", k, k), format!("x<{}> := 1", k), format!("y := x<{}>", k), format!("<t> := <{}>", k), format!("#M(n<{}>) => <{}>\n  ├ :A(n<{}>)\n  └ :Done(n<{}>).", k, k, k, k), format!("x := |a<{}> b<u8>| 1 2 |", k), format!("x := []<{}>", k)].iter().enumerate() {
+        out.push(Case { id: format!("kind-spelling;k={};f={}", ki, fi), cell: "kind-spellings".into(), input: json!({"text": src}) });
+      }
+    }
     // documents with 1-3 mutations
     for (path, text) in corpus::mec_files(4 * 1024) {
       for m in 0..(if tier == Tier::Quick { 2 } else { 16 }) { let mut rng = Rng::keyed(seed, &format!("c09docmut{}{}", path, m)); out.push(Case { id: format!("docmut;path={};m={}", path, m), cell: "document-mutated".into(), input: json!({"text": mutate(&text, &mut rng)}) }); }
